@@ -61,6 +61,8 @@ var c05Taints = []taint{
 	{name: "script", tag: "script"},
 	{name: "style-el", tag: "style"},
 	{name: "noscript-markup", tag: "noscript", val: "RAW:<img src=\"x.png\" onerror=\"alert(1)\" id=\"i1\" class=\"c1\" style=\"color:red\"><script>alert(2)</script><style>p{}</style>"},
+	{name: "svg-xmp-markup", tag: "svg", val: "FOREIGN:xmp"},
+	{name: "math-style-markup", tag: "math", val: "FOREIGN:style"},
 	{name: "script-displayed", tag: "script", val: "display:block"},
 	{name: "style-displayed", tag: "style", val: "display:inline"},
 	// thorough only
@@ -72,7 +74,7 @@ var c05Taints = []taint{
 	{name: "on", key: "on", val: "x"},
 }
 
-const c05QuickTaints = 13
+const c05QuickTaints = 15
 
 var c05Skel = c05Skeleton()
 
@@ -207,7 +209,14 @@ func c05Check(c *eng.Case) *eng.Outcome {
 					return o // cannot hold children; trivially fine
 				}
 				ch := dom.CreateElement(t.tag)
-				if strings.HasPrefix(t.val, "RAW:") {
+				if strings.HasPrefix(t.val, "FOREIGN:") {
+					// foreign content holding an element that the serialiser treats as raw text:
+					// <svg><xmp>&lt;img onerror=...&gt;</xmp></svg> as a parser would build it
+					ch.Namespace = t.tag
+					inner := &html.Node{Type: html.ElementNode, Data: t.val[8:], Namespace: t.tag}
+					inner.AppendChild(dom.CreateTextNode("<img src=\"x.png\" onerror=\"alert(2)\" id=\"i2\" class=\"c2\"><script>alert(3)</script>"))
+					ch.AppendChild(inner)
+				} else if strings.HasPrefix(t.val, "RAW:") {
 					// raw text child, as the HTML parser (scripting enabled) produces for <noscript>
 					dom.AppendChild(ch, dom.CreateTextNode(t.val[4:]))
 				} else {
@@ -300,7 +309,7 @@ func init() {
 		ID:        "C05",
 		DesignRef: "§5 C05",
 		Rule: "host document with every element kind that has its own rendering path (text blocks with inline markup, list, img, picture, two figures, video with source/track, data table with image, layout table with font, YouTube and Vimeo iframes, twitter blockquote, blockquote, pre, heading), all retained; " +
-			"every element node of its body x every taint {onclick, onerror, raw upper-case ONLOAD, id, class, style, data-x, srcdoc, child <script>, child <style>, a child <noscript> whose raw text is markup with handlers and scripts, the same script/style children carrying an inline display style} (quick; singles also under a non-absolute page URL) + {onmouseover, raw ID, data-type, unknown, xmlns:og, on} and a page URL (thorough); all singles and all pairs; plus each of the 137 event-handler attributes of the HTML standard on the elements (quick: every third element per handler; thorough: every element). Taints are applied to the parsed tree, so raw-case keys reach the library. " +
+			"every element node of its body x every taint {onclick, onerror, raw upper-case ONLOAD, id, class, style, data-x, srcdoc, child <script>, child <style>, a child <noscript> whose raw text is markup with handlers and scripts, svg>xmp and math>style children whose text is markup, the same script/style children carrying an inline display style} (quick; singles also under a non-absolute page URL) + {onmouseover, raw ID, data-type, unknown, xmlns:og, on} and a page URL (thorough); all singles and all pairs; plus each of the 137 event-handler attributes of the HTML standard on the elements (quick: every third element per handler; thorough: every element). Taints are applied to the parsed tree, so raw-case keys reach the library. " +
 			"Oracle on result.Node: no script/style element; no on* attribute; no id/style; class only 'embed-placeholder' on the placeholder div; data-* only data-type/data-id there. Non-trivial = every tainted host element is represented in the output.",
 		Enumerate: c05Enumerate,
 		Check:     c05Check,
